@@ -248,9 +248,10 @@ FLT_CORE = ["f_nan", "f_inf", "f_-inf", "f_-0", "f_tiny", "f_huge", "f_0.3", "f_
 FLT_EXT = ["f_small", "f_17", "f_1e16", "f_max", "f_1e-7", "f_int", "f_neg", "f_1e15"]
 INT_CORE = ["i_0", "i_-1", "i_big"]
 INT_EXT = ["i_min", "i_max"]
-# values whose only effect on a power flow is to amplify solver round-off by >1e10 (loading = i / 3e-11 kA): they are
-# placed in columns that do not enter the calculation, so that the results clause compares like with like
-PF_NEUTRAL_ONLY = ("f_small", "f_tiny")
+# values whose only effect on a power flow is to amplify round-off that the statement allows (loading = i / 3e-11 kA; an
+# angle of 1e16 degrees of which 15 significant digits are kept): they are placed in columns that do not enter the
+# calculation, so that the results clause compares like with like
+PF_NEUTRAL_ONLY = ("f_small", "f_tiny", "f_1e16", "f_1e15")
 PF_NEUTRAL_SLOTS = (("load", "sn_mva"), ("storage", "soc_percent"), ("measurement", "value"), ("poly_cost", "cp1_eur_per_mw"),
                     ("load", "cust_f"), ("bus", "max_vm_pu"), ("bus_dc", "vn_kv"), ("vsc", "r_ohm"))
 COL_KINDS = ["Int64NA", "booleanNA", "string", "stringNA", "Int64", "boolean", "Float64NA", "category", "datetime", "int32",
